@@ -494,7 +494,8 @@ class Fn(object):
             for n_, ty_ in decl.items():
                 if ty_ != 'Opaque':
                     env2[n_] = ty_
-            return self.block(rest, env2, ret, self_ty, indent)
+            ev_ = self.tr.get('assigned_input_events', {}).get(ast.unparse(s.value.func))
+            return (pad + 'let trace := trace ++ [Event.%s]\n' % ev_ if ev_ else '') + self.block(rest, env2, ret, self_ty, indent)
         if isinstance(s, ast.Assign) and len(s.targets) == 1 and isinstance(s.targets[0], ast.Attribute) \
                 and ast.unparse(s.targets[0]) in self.tr.get('attr_events', {}):
             ev = self.tr['attr_events'][ast.unparse(s.targets[0])]
@@ -511,6 +512,21 @@ class Fn(object):
                 raise Unsupported('return inside a loop')
             return pad + 'let trace := trace ++ [Event.%s]\n' % self.tr['return_events'][ast.unparse(s.value)] + \
                 pad + 'some trace'
+        if isinstance(s, ast.Raise) and isinstance(s.exc, ast.Call) and isinstance(s.exc.func, ast.Name) \
+                and s.exc.func.id in self.tr.get('raise_events', {}):
+            # raise X(...): the last event of the trace
+            if self.in_loop:
+                raise Unsupported('raise inside a loop')
+            return pad + 'let trace := trace ++ [Event.%s]\n' % self.tr['raise_events'][s.exc.func.id] + pad + 'some trace'
+        if isinstance(s, ast.With):
+            # with <declared lock>: held to the end of the function (nothing may follow the statement)
+            if len(s.items) != 1 or s.items[0].optional_vars is not None \
+                    or ast.unparse(s.items[0].context_expr) not in self.tr.get('lock_events', {}):
+                raise Unsupported('with %s' % ', '.join(ast.unparse(i_) for i_ in s.items))
+            if rest or self.in_loop:
+                raise Unsupported('statements after the region of %s' % ast.unparse(s.items[0].context_expr))
+            return pad + 'let trace := trace ++ [Event.%s]\n' % self.tr['lock_events'][ast.unparse(s.items[0].context_expr)] + \
+                self.block(list(s.body), env, ret, self_ty, indent)
         if isinstance(s, ast.If) and self.reads_ignored(s.test):
             raise Unsupported('an `if` that tests an ignored name contains a kept statement')
         if isinstance(s, (ast.Continue, ast.Break)):
@@ -518,6 +534,19 @@ class Fn(object):
         if isinstance(s, ast.Try):
             if s.finalbody or s.orelse:
                 raise Unsupported('try with else / finally')
+            th = self.tr.get('try_handlers', {})
+            if th:
+                # declared handlers: whether the body raises that exception is an input; the handler must end the function
+                if len(s.handlers) != 1 or not isinstance(s.handlers[0].type, ast.Name) or s.handlers[0].type.id not in th:
+                    raise Unsupported('try with handlers other than the declared %s' % sorted(th))
+                h = s.handlers[0]
+                if not isinstance(h.body[-1], (ast.Raise, ast.Return)):
+                    raise Unsupported('the handler of %s does not end the function' % h.type.id)
+                if h.name:
+                    self.tr['ignore_locals'].add(h.name)
+                return pad + 'if %s then\n%s\n%selse\n%s' % (
+                    lean_name(th[h.type.id]), self.block(list(h.body), env, ret, self_ty, indent + 1), pad,
+                    self.block(list(s.body) + rest, env, ret, self_ty, indent + 1))
             # only the try body: an exception is `none` in any case
             return self.block(list(s.body) + rest, env, ret, self_ty, indent)
         if isinstance(s, ast.AugAssign) and isinstance(s.target, ast.Name) and isinstance(s.op, (ast.Sub, ast.Add)):
@@ -550,9 +579,20 @@ class Fn(object):
                 return self.wrap(binds, body, pad)
             sub = self.tr['units'].get(fn)
             if sub is not None:                               # another trace unit, spliced in
-                b_, terms, types = self.args(s.value, env)
+                if s.value.keywords or len(s.value.args) != len(sub['all_types']):
+                    raise Unsupported('%s: arguments' % fn)
+                b_, terms, types = [], [], []
+                for a_, want_ in zip(s.value.args, sub['all_types']):
+                    if want_ == 'Opaque':
+                        continue                              # not looked at by the callee's translation
+                    x_, t_, ty_ = self.expr(a_, env)
+                    b_ += x_
+                    terms.append(t_)
+                    types.append(ty_)
                 if types != sub['types']:
                     raise Unsupported('%s called with %s' % (fn, types))
+                if self.tr.get('raise_events') and (rest or self.in_loop):
+                    raise Unsupported('%s may end in a raise event and is not the last statement' % fn)
                 n = self.fresh()
                 body = pad + 'let trace := trace ++ %s\n' % n + self.block(rest, env, ret, self_ty, indent)
                 return self.wrap(b_ + [(n, '(%s %s)' % (sub['lean'], ' '.join(sub['extra'] + terms)))], body, pad)
@@ -687,6 +727,9 @@ class Fn(object):
             if isinstance(tg, ast.Attribute) and isinstance(tg.value, ast.Name) and tg.value.id == 'self' \
                     and self_ty is not None:
                 f_ = self.field_of(self_ty, tg.attr)
+                if f_ is not None and self.ftype(self_ty, f_) == 'Bool' and isinstance(s.value, ast.Constant) \
+                        and isinstance(s.value.value, bool):
+                    b, t, ty = [], 'true' if s.value.value else 'false', 'Bool'
                 if f_ is None or not (ty == self.ftype(self_ty, f_) or (ty == 'List ?' and self.ftype(self_ty, f_).startswith('List '))):
                     raise Unsupported('assignment to self.%s' % tg.attr)
                 body = pad + 'let self := { self with %s := %s }\n' % (lean_name(f_), t) + \
@@ -921,10 +964,15 @@ def translate(spec, repo):
     for u in spec['units']:
         if u.get('kind') == 'trace':
             _tbl, ip = unit_inputs(u)
+            ip = list(ip)
+            for decl in u.get('assigned_inputs', {}).values():
+                ip += [(n_, ty_) for n_, ty_ in decl.items() if ty_ != 'Opaque' and n_ is not None]
+            ip += [(p_, 'Bool') for p_ in u.get('try_handlers', {}).values()]
             trace_units['self.' + u['name']] = {
                 'lean': '%s_%s' % (cls_name(u['class']), u['name'].lstrip('_')),
                 'types': [t for (_n, t) in u['params'].items() if t != 'Opaque'],
-                'extra': [lean_name(n_) for (n_, _t) in ip]}
+                'all_types': [t for (_n, t) in u['params'].items()],
+                'extra': [lean_name(n_) for (n_, _t) in ip], 'extra_typed': ip}
 
     def signature(first, params):
         return ' '.join(first + ['(%s : %s)' % (lean_name(p_), lean_ty(t)) for p_, t in params.items()])
@@ -1022,6 +1070,8 @@ def translate(spec, repo):
                     raise Unsupported('%s.__init__: field %s' % (cls, s_.targets[0].attr))
                 b_, t_, ty_ = tr.expr(s_.value, env)
                 want_ty = tr.ftype(cls, f_)
+                if want_ty == 'Bool' and isinstance(s_.value, ast.Constant) and isinstance(s_.value.value, bool):
+                    b_, t_, ty_ = [], 'true' if s_.value.value else 'false', 'Bool'
                 if not (ty_ == want_ty or (ty_ == 'List ?' and want_ty.startswith('List '))):
                     raise Unsupported('%s.__init__: self.%s gets a %s' % (cls, f_, ty_))
                 binds += b_
@@ -1043,7 +1093,9 @@ def translate(spec, repo):
                 'events': events, 'ignore_locals': set(u.get('ignore_locals', [])),
                 'ignore_calls': set(u.get('ignore_calls', [])), 'ignore_fields': set(u.get('ignore_fields', [])),
                 'assigned_inputs': u.get('assigned_inputs', {}), 'attr_events': u.get('attr_events', {}),
-                'return_events': u.get('return_events', {}),
+                'return_events': u.get('return_events', {}), 'raise_events': u.get('raise_events', {}),
+                'lock_events': u.get('lock_events', {}), 'try_handlers': u.get('try_handlers', {}),
+                'assigned_input_events': u.get('assigned_input_events', {}),
                 'units': dict((k_, v_) for k_, v_ in trace_units.items() if k_ != 'self.' + u['name'])}))
             env = dict((p_, t) for p_, t in u['params'].items() if t != 'Opaque')
             for decl in u.get('assigned_inputs', {}).values():
@@ -1052,11 +1104,20 @@ def translate(spec, repo):
                         iparams.append((n_, ty_))
                     elif n_ is not None:
                         tr.tr['ignore_locals'].add(n_)
+            for p_ in u.get('try_handlers', {}).values():
+                iparams.append((p_, 'Bool'))
+            for n_ in ast.walk(fn):                      # the inputs of the trace units it calls are its inputs too
+                if isinstance(n_, ast.Call) and ast.unparse(n_.func) in trace_units and ast.unparse(n_.func) != 'self.' + u['name']:
+                    for pt in trace_units[ast.unparse(n_.func)]['extra_typed']:
+                        if pt not in iparams:
+                            iparams.append(pt)
             tr.fall = 'some trace'
             body = tr.block(fn.body, env, 'List Event', None, 1)
             sig = ' '.join(['(%s : %s)' % (lean_name(n_), lean_ty(t)) for (n_, t) in iparams] +
                            ['(%s : %s)' % (lean_name(p_), lean_ty(t)) for p_, t in u['params'].items() if t != 'Opaque'])
-            out.append('/-- the events of `%s.%s` (of a `try` statement only the body is translated) -/' % (u['class'], u['name']))
+            out.append('/-- the events of `%s.%s` (%s) -/' % (
+                u['class'], u['name'], 'whether the body of its `try` raises %s is an input' % ' / '.join(u['try_handlers'])
+                if u.get('try_handlers') else 'of a `try` statement only the body is translated'))
             out.append('def %s_%s %s : Option (List Event) :=\n  let trace : List Event := []\n%s\n' % (
                 cls_name(u['class']), u['name'].lstrip('_'), sig, body))
         elif kind == 'call_arg':
